@@ -135,3 +135,20 @@ def loop_of(b, bi):
         if bi in body and (best is None or len(body) < len(best[1])):
             best = (h, body)
     return best
+
+
+def edge_must_err(b, sw, tgt):
+    """every path that leaves the switch through `tgt` ends in an error: `tgt` is entered only through that edge, nothing
+    reachable from it builds an Ok into the return place, and an Err (or a `?` propagation) is reachable"""
+    if tgt is None or edge_only_region(b, sw, tgt) is None:
+        return False
+    reach = b.reachable(tgt)
+    if readset.ok_constructions(b, reach):
+        return False
+    if has_err(b, reach):
+        return True
+    for x in reach:
+        t = b.blocks[x]["term"]
+        if t["t"] == "call" and t["dest"]["l"] == 0 and callee_names(t["func"])[0].endswith("FromResidual::from_residual"):
+            return True
+    return False
